@@ -1,6 +1,382 @@
-//! C11: implementation-side case runners (see props/c11.py). Stub until the property is built.
+//! C11: SAUCE writer / reader / content split on the real code, public API only (see props/c11.py).
+//!
+//! kinds
+//!   x <hex>                                   SauceData::extract on a byte string
+//!   w <ft> <content> <w> <h> <ice> <font> <sauce…>   Buffer::write_sauce_info on `content`; prints the appended tail
+//!   wx …same as w…                            write, then extract on the result, then the from_bytes cut (oracle)
+//!   split <ext> <k> <hex>                     from_bytes(data) == load_buffer(data[..k], extract(data)) ?
+//!   e2e <ext> <w> <h> <ice> <font> <seed> <tail> <sauce…>   save with SAUCE, load, compare metadata and picture
+//!   huge <n> <k>                              2 GiB + k byte file whose record announces n comments (regression)
+//! <sauce…> = `0` (buffer without SAUCE data) | `1 <title> <author> <group> <ar> <ls> <n> <c1> … <cn>` (raw CP437 bytes, hex)
+//! <font>   = `-` (no font in slot 0) | `default` | `empty` | hex of the UTF-8 font name
+use crate::util::{hex, int, unhex};
 use crate::Obs;
+use icy_engine::{
+    AttributedChar, BitFont, Buffer, IceMode, SauceData, SauceFileType, SauceString, SaveOptions, TextAttribute, TextPane, FORMATS,
+};
+use icy_engine::ascii::CP437_TO_UNICODE;
+use std::path::PathBuf;
 
-pub fn run(_kind: &str, _args: &[&str]) -> Option<Obs> {
-    None
+fn err_class(msg: &str) -> String {
+    let m = msg.to_ascii_lowercase();
+    let c = if m.starts_with("unsupported version") {
+        "version"
+    } else if m.starts_with("invalid sauce comment block") {
+        "comment-block"
+    } else if m.starts_with("invalid sauce comment id") {
+        "comment-id"
+    } else if m.starts_with("unsupported sauce date") {
+        "date"
+    } else if m.starts_with("comment limit exceeded") {
+        "comment-limit"
+    } else if m.starts_with("bin file width limit") {
+        "bin-width"
+    } else {
+        return format!("other:{}", msg.chars().take(60).collect::<String>());
+    };
+    c.to_string()
+}
+
+fn sstr<const L: usize, const E: u8>(raw: &[u8]) -> Result<SauceString<L, E>, String> {
+    let s: String = raw.iter().map(|b| CP437_TO_UNICODE[*b as usize]).collect();
+    let r = SauceString::<L, E>::from(s);
+    // make sure the public constructor really produced these bytes
+    let mut v = Vec::new();
+    r.append_to(&mut v);
+    let n = raw.len().min(L);
+    if v.len() < n || v[..n] != raw[..n] {
+        return Err("cannot-construct-string".to_string());
+    }
+    Ok(r)
+}
+
+fn push_str<const L: usize, const E: u8>(out: &mut Vec<i64>, s: &SauceString<L, E>) {
+    let mut v = Vec::new();
+    s.append_to(&mut v);
+    out.push(i64::from(s.is_empty()));
+    out.push(s.len() as i64);
+    out.push(v.len() as i64);
+    out.extend(v.iter().map(|b| *b as i64));
+}
+
+fn ft_code(t: SauceFileType) -> i64 {
+    match t {
+        SauceFileType::Undefined => 0,
+        SauceFileType::Ascii => 1,
+        SauceFileType::Ansi => 2,
+        SauceFileType::ANSiMation => 3,
+        SauceFileType::PCBoard => 4,
+        SauceFileType::Avatar => 5,
+        SauceFileType::TundraDraw => 6,
+        SauceFileType::Bin => 7,
+        SauceFileType::XBin => 8,
+    }
+}
+
+fn ft_of(code: i64) -> SauceFileType {
+    match code {
+        1 => SauceFileType::Ascii,
+        2 => SauceFileType::Ansi,
+        3 => SauceFileType::ANSiMation,
+        4 => SauceFileType::PCBoard,
+        5 => SauceFileType::Avatar,
+        6 => SauceFileType::TundraDraw,
+        7 => SauceFileType::Bin,
+        8 => SauceFileType::XBin,
+        _ => SauceFileType::Undefined,
+    }
+}
+
+/// "2023-01-10 00:00:00" (also "+12345-01-10 …", "-0001-…") -> (y, m, d)
+fn ymd(s: &str) -> (i64, i64, i64) {
+    let date = s.split(' ').next().unwrap_or("");
+    let mut it = date.rsplitn(3, '-');
+    let d = it.next().unwrap_or("0").parse().unwrap_or(-1);
+    let m = it.next().unwrap_or("0").parse().unwrap_or(-1);
+    let y = it.next().unwrap_or("0").trim_start_matches('+').parse().unwrap_or(i64::MIN);
+    (y, m, d)
+}
+
+/// [1, header_len, data_type, file_type, w, h, ice, ls, ar, y, m, d, font?, nfont, font code points…,
+///  title, author, group (each: is_empty, len(), n, n appended bytes), ncomments, comments…]
+fn obs_sauce(m: &SauceData, out: &mut Vec<i64>) {
+    out.push(1);
+    out.push(m.sauce_header_len as i64);
+    out.push(m.data_type.clone() as u8 as i64);
+    out.push(ft_code(m.sauce_file_type));
+    out.push(m.buffer_size.width as i64);
+    out.push(m.buffer_size.height as i64);
+    out.push(i64::from(m.use_ice));
+    out.push(i64::from(m.use_letter_spacing));
+    out.push(i64::from(m.use_aspect_ratio));
+    let (y, mo, d) = ymd(&m.creation_time.to_string());
+    out.push(y);
+    out.push(mo);
+    out.push(d);
+    match &m.font_opt {
+        None => {
+            out.push(0);
+            out.push(0);
+        }
+        Some(f) => {
+            out.push(1);
+            out.push(f.chars().count() as i64);
+            out.extend(f.chars().map(|c| c as i64));
+        }
+    }
+    push_str(out, &m.title);
+    push_str(out, &m.author);
+    push_str(out, &m.group);
+    out.push(m.comments.len() as i64);
+    for c in &m.comments {
+        push_str(out, c);
+    }
+}
+
+fn extract_obs(data: &[u8]) -> Obs {
+    match SauceData::extract(data) {
+        Ok(None) => Ok(vec![0]),
+        Ok(Some(m)) => {
+            let mut out = Vec::new();
+            obs_sauce(&m, &mut out);
+            Ok(out)
+        }
+        Err(e) => Err(err_class(&e.to_string())),
+    }
+}
+
+/// parses `<sauce…>`; returns the SauceData to put into the buffer
+fn parse_sauce(args: &[&str]) -> Result<Option<SauceData>, String> {
+    if args.is_empty() || args[0] == "0" {
+        return Ok(None);
+    }
+    let mut s = SauceData::default();
+    s.title = sstr::<35, b' '>(&unhex(args[1]))?;
+    s.author = sstr::<20, b' '>(&unhex(args[2]))?;
+    s.group = sstr::<20, b' '>(&unhex(args[3]))?;
+    s.use_aspect_ratio = args[4] == "1";
+    s.use_letter_spacing = args[5] == "1";
+    let n = int(args[6]) as usize;
+    for i in 0..n {
+        s.comments.push(sstr::<64, 0>(&unhex(args[7 + i]))?);
+    }
+    Ok(Some(s))
+}
+
+/// `alloc`: allocate the w x h cell grid (end-to-end cases); otherwise only the size fields are set, which is
+/// all write_sauce_info reads (lets stage C use heights such as 70000 cheaply)
+fn make_buffer(w: i32, h: i32, ice: bool, font: &str, sauce: Option<SauceData>, alloc: bool) -> Buffer {
+    let mut buf = if alloc { Buffer::new((w, h)) } else { Buffer::new((1, 1)) };
+    buf.is_terminal_buffer = false;
+    if ice {
+        buf.ice_mode = IceMode::Ice;
+    }
+    if font == "-" {
+        buf.remove_font(0);
+    } else if font != "default" {
+        let name = if font == "empty" { String::new() } else { String::from_utf8_lossy(&unhex(font)).to_string() };
+        let mut f = match BitFont::from_sauce_name(&name) {
+            Ok(f) => f,
+            Err(_) => BitFont::default(),
+        };
+        f.name = name;
+        buf.set_font(0, f);
+    }
+    if sauce.is_some() {
+        buf.set_sauce(sauce, false);
+    }
+    if !alloc {
+        buf.set_size((w, h));
+    }
+    buf
+}
+
+fn same_picture(a: &Buffer, b: &Buffer) -> i64 {
+    if a.get_width() != b.get_width() {
+        return 0;
+    }
+    let h = a.get_height().max(b.get_height());
+    for y in 0..h {
+        for x in 0..a.get_width() {
+            let ca = a.get_char((x, y));
+            let cb = b.get_char((x, y));
+            let blank = |c: &AttributedChar| c.ch == ' ' || c.ch == '\0';
+            if blank(&ca) && blank(&cb) && ca.attribute.get_background() == cb.attribute.get_background() {
+                continue;
+            }
+            if ca.ch != cb.ch
+                || ca.attribute.get_foreground() != cb.attribute.get_foreground()
+                || ca.attribute.get_background() != cb.attribute.get_background()
+                || ca.attribute.is_blinking() != cb.attribute.is_blinking()
+                || ca.attribute.is_bold() != cb.attribute.is_bold()
+            {
+                return 0;
+            }
+        }
+    }
+    if a.get_height() == b.get_height() {
+        2
+    } else {
+        1
+    }
+}
+
+fn rnd(state: &mut u64) -> u64 {
+    *state = state.wrapping_add(0x9E37_79B9_7F4A_7C15);
+    let mut z = *state;
+    z = (z ^ (z >> 30)).wrapping_mul(0xBF58_476D_1CE4_E5B9);
+    z = (z ^ (z >> 27)).wrapping_mul(0x94D0_49BB_1331_11EB);
+    z ^ (z >> 31)
+}
+
+pub fn run(kind: &str, args: &[&str]) -> Option<Obs> {
+    Some(match kind {
+        "x" => extract_obs(&unhex(args[0])),
+        "w" | "wx" => {
+            let ft = ft_of(int(args[0]));
+            let content = unhex(args[1]);
+            let sauce = match parse_sauce(&args[6..]) {
+                Ok(s) => s,
+                Err(e) => return Some(Err(e)),
+            };
+            let buf = make_buffer(int(args[2]) as i32, int(args[3]) as i32, args[4] == "1", args[5], sauce, false);
+            let mut vec = content.clone();
+            match buf.write_sauce_info(ft, &mut vec) {
+                Err(e) => Err(err_class(&e.to_string())),
+                Ok(_) => {
+                    let keeps = vec.len() >= content.len() && vec[..content.len()] == content[..];
+                    let tail: Vec<u8> = if keeps { vec[content.len()..].to_vec() } else { vec.clone() };
+                    let mut out = vec![i64::from(keeps), tail.len() as i64];
+                    out.extend(tail.iter().map(|b| *b as i64));
+                    if kind == "wx" {
+                        match SauceData::extract(&vec) {
+                            Ok(None) => out.push(0),
+                            Err(e) => return Some(Err(format!("extract-after-write:{}", err_class(&e.to_string())))),
+                            Ok(Some(m)) => obs_sauce(&m, &mut out),
+                        }
+                    }
+                    Ok(out)
+                }
+            }
+        }
+        "split" => {
+            let ext = args[0];
+            let k = int(args[1]) as usize;
+            let data = unhex(args[2]);
+            let path = PathBuf::from(format!("a.{ext}"));
+            let b1 = Buffer::from_bytes(&path, false, &data);
+            let sauce = SauceData::extract(&data).ok().flatten();
+            let mut b2 = None;
+            for fmt in &*FORMATS {
+                if fmt.get_file_extension() == ext {
+                    b2 = Some(fmt.load_buffer(&path, &data[..k.min(data.len())], sauce.clone()));
+                }
+            }
+            match (b1, b2) {
+                (Ok(a), Some(Ok(b))) => Ok(vec![1, same_picture(&a, &b), a.get_width() as i64, a.get_height() as i64, b.get_height() as i64]),
+                (Err(_), Some(Err(_))) => Ok(vec![0, 2]),
+                (Ok(_), Some(Err(_))) => Ok(vec![0, 0]),
+                (Err(_), Some(Ok(_))) => Ok(vec![0, 1]),
+                (_, None) => Err("unknown-extension".to_string()),
+            }
+        }
+        "e2e" => {
+            let ext = args[0];
+            let (w, h) = (int(args[1]) as i32, int(args[2]) as i32);
+            let ice = args[3] == "1";
+            let mut seed = int(args[5]) as u64;
+            let tail = unhex(args[6]);
+            let sauce = match parse_sauce(&args[7..]) {
+                Ok(s) => s,
+                Err(e) => return Some(Err(e)),
+            };
+            let saved = sauce.clone();
+            let mut buf = make_buffer(w, h, ice, args[4], sauce, true);
+            let maxbg = if ice { 16 } else { 8 };
+            for y in 0..h {
+                for x in 0..w {
+                    let r = rnd(&mut seed);
+                    if r % 4 == 0 {
+                        continue;
+                    }
+                    let ch = 0x21 + ((r >> 8) % 94) as u8;
+                    let attr = TextAttribute::new(((r >> 20) % 16) as u32, ((r >> 30) % maxbg) as u32);
+                    buf.layers[0].set_char((x, y), AttributedChar::new(ch as char, attr));
+                }
+            }
+            // the picture's last cells spell `tail` (content ending in marker look-alikes)
+            let n = tail.len().min(w as usize);
+            for (i, b) in tail[tail.len() - n..].iter().enumerate() {
+                let x = w - n as i32 + i as i32;
+                buf.layers[0].set_char((x, h - 1), AttributedChar::new(*b as char, TextAttribute::new(7, 0)));
+            }
+            let mut opt = SaveOptions::new();
+            opt.save_sauce = true;
+            let with = match buf.to_bytes(ext, &opt) {
+                Ok(b) => b,
+                Err(e) => return Some(Err(format!("save:{}", err_class(&e.to_string())))),
+            };
+            opt.save_sauce = false;
+            let without = match buf.to_bytes(ext, &opt) {
+                Ok(b) => b,
+                Err(e) => return Some(Err(format!("save-plain:{}", err_class(&e.to_string())))),
+            };
+            let path = PathBuf::from(format!("a.{ext}"));
+            let l1 = match Buffer::from_bytes(&path, false, &with) {
+                Ok(b) => b,
+                Err(e) => return Some(Err(format!("load:{}", e.to_string().chars().take(40).collect::<String>()))),
+            };
+            let l2 = match Buffer::from_bytes(&path, false, &without) {
+                Ok(b) => b,
+                Err(e) => return Some(Err(format!("load-plain:{}", e.to_string().chars().take(40).collect::<String>()))),
+            };
+            // [prefix?, eof?, appended, same-defaults?, same-picture(0/1/2), saved w, saved h, l1 w, l1 h, l2 w, l2 h, sauce obs… ]
+            let prefix = with.len() > without.len() && with[..without.len()] == without[..];
+            let eof = prefix && with[without.len()] == 0x1A;
+            let mut out = vec![i64::from(prefix), i64::from(eof), (with.len() - without.len().min(with.len())) as i64];
+            let f1 = l1.get_font(0).map(|f| f.name.clone()).unwrap_or_default();
+            let f2 = l2.get_font(0).map(|f| f.name.clone()).unwrap_or_default();
+            let same_defaults = l1.get_width() == l2.get_width() && l1.ice_mode == l2.ice_mode && f1 == f2;
+            out.push(i64::from(same_defaults));
+            out.push(same_picture(&l1, &l2));
+            out.extend([w as i64, h as i64, l1.get_width() as i64, l1.get_height() as i64, l2.get_width() as i64, l2.get_height() as i64]);
+            out.push(i64::from(l2.get_sauce().is_some()));
+            let _ = saved;
+            match l1.get_sauce() {
+                None => out.push(0),
+                Some(m) => obs_sauce(m, &mut out),
+            }
+            Ok(out)
+        }
+        "huge" => {
+            let n = int(args[0]) as u8;
+            let k = int(args[1]) as usize;
+            let total = (1usize << 31) + 128 + k;
+            let mut data = vec![0u8; total];
+            let o = total - 128;
+            data[o..o + 7].copy_from_slice(b"SAUCE00");
+            for i in 7..90 {
+                data[o + i] = b' ';
+            }
+            data[o + 82..o + 90].copy_from_slice(b"20240101");
+            data[o + 94] = 1;
+            data[o + 95] = 1;
+            data[o + 104] = n;
+            if n > 0 {
+                let c = o - 64 * n as usize - 5;
+                data[c..c + 5].copy_from_slice(b"COMNT");
+            }
+            match SauceData::extract(&data) {
+                Ok(None) => Ok(vec![0]),
+                Ok(Some(m)) => Ok(vec![1, m.sauce_header_len as i64, m.comments.len() as i64]),
+                Err(e) => Err(err_class(&e.to_string())),
+            }
+        }
+        _ => return None,
+    })
+}
+
+#[allow(dead_code)]
+fn _unused() -> String {
+    hex(&[])
 }
